@@ -292,6 +292,9 @@ func (u *Unit) eval(st *State, e ast.Expr) Val {
 	case *ast.UnaryExpr:
 		return u.evalUnary(st, x)
 	case *ast.StarExpr:
+		if al, ok := u.aliasOf(x.X); ok {
+			return u.aliasRead(st, al, x.Pos())
+		}
 		p := u.eval(st, x.X)
 		return u.deref(st, p, x.Pos())
 	case *ast.SelectorExpr:
@@ -334,6 +337,13 @@ func (u *Unit) evalIdent(st *State, id *ast.Ident) Val {
 	case *types.Const:
 		return u.constVal(o.Val(), o.Type())
 	case *types.Var:
+		if _, ok := u.elemAlias[o]; ok {
+			u.unsupported(id.Pos(), "pointer to slice element %s used as a value", o.Name())
+		}
+		if cell, ok := st.ghost["cell:"+objKey(o)]; ok {
+			// the variable's address was taken: its value lives in a heap cell
+			return u.deref(st, Val{T: cell.T, Ty: types.NewPointer(o.Type()), So: "Int"}, token.NoPos)
+		}
 		if v, ok := st.vars[o]; ok {
 			return v
 		}
@@ -816,6 +826,9 @@ func (u *Unit) evalSelector(st *State, x *ast.SelectorExpr) Val {
 	if sel, ok := u.info.Selections[x]; ok {
 		switch sel.Kind() {
 		case types.FieldVal:
+			if al, ok := u.aliasOf(x.X); ok {
+				return u.readPath(st, u.aliasRead(st, al, x.Pos()), sel.Index(), x.Pos())
+			}
 			base := u.eval(st, x.X)
 			return u.readPath(st, base, sel.Index(), x.Pos())
 		case types.MethodVal:
@@ -1075,6 +1088,14 @@ func (u *Unit) assign(st *State, lhs ast.Expr, v Val) {
 			u.assign(st, x.Sel, v)
 			return
 		}
+		if al, ok := u.aliasOf(x.X); ok {
+			cur := u.aliasRead(st, al, x.Pos())
+			nv, changed := u.storeInValue(st, cur, sel.Index(), v, x.Pos())
+			if changed {
+				u.aliasWrite(st, al, nv, x.Pos())
+			}
+			return
+		}
 		base := u.eval(st, x.X)
 		u.storePath(st, x.X, base, sel.Index(), v, x.Pos())
 	case *ast.IndexExpr:
@@ -1101,6 +1122,10 @@ func (u *Unit) assign(st *State, lhs ast.Expr, v Val) {
 			u.unsupported(x.Pos(), "index assignment on %v", base.Ty)
 		}
 	case *ast.StarExpr:
+		if al, ok := u.aliasOf(x.X); ok {
+			u.aliasWrite(st, al, v, x.Pos())
+			return
+		}
 		p := u.eval(st, x.X)
 		u.safe("nil", x.Pos(), st, sNot(sEq(p.T, "0")), "pointer != nil")
 		pt, _ := isPointer(p.Ty)
@@ -1162,4 +1187,37 @@ func (u *Unit) storeInValue(st *State, cur Val, path []int, v Val, pos token.Pos
 		return cur, false
 	}
 	return u.updateField(cur, f.Name(), ni.T), true
+}
+
+// ---- pointers to slice elements (p := &s[i]) ----
+// Modelled as an lvalue alias: reads and writes through p go to s[i]. p must not escape.
+
+type elemAlias struct {
+	base ast.Expr
+	idx  string
+}
+
+func (u *Unit) aliasOf(e ast.Expr) (elemAlias, bool) {
+	id, ok := ast.Unparen(e).(*ast.Ident)
+	if !ok {
+		return elemAlias{}, false
+	}
+	obj := u.info.ObjectOf(id)
+	al, ok := u.elemAlias[obj]
+	return al, ok
+}
+
+func (u *Unit) aliasRead(st *State, al elemAlias, pos token.Pos) Val {
+	base := u.eval(st, al.base)
+	bt := base.Ty.Underlying().(*types.Slice)
+	_, _, ln, _ := u.sliceParts(base)
+	u.safe("index", pos, st, sAnd(app("<=", "0", al.idx), app("<", al.idx, ln)), "0 <= index < len")
+	return Val{T: u.sliceAt(base, al.idx), Ty: bt.Elem(), So: u.sortOf(bt.Elem())}
+}
+
+func (u *Unit) aliasWrite(st *State, al elemAlias, v Val, pos token.Pos) {
+	base := u.eval(st, al.base)
+	arr, _, ln, isnil := u.sliceParts(base)
+	nv := Val{T: u.mkSlice(base.So, app("store", arr, al.idx, v.T), "0", ln, isnil), Ty: base.Ty, So: base.So}
+	u.assign(st, al.base, nv)
 }
